@@ -76,16 +76,17 @@ type Link struct {
 	editIdx   [2]int
 	skip      [2]int // bytes still to delete from the current edit
 
-	closed    [2]bool // end i (0=A,1=B) closed locally
-	closeCnt  [2]int
-	cut       bool
-	blocked   [2]bool // end i blocked in Read
-	deadlock  bool
-	wrCalls   [2]int
-	rdCalls   [2]int
+	closed     [2]bool // end i (0=A,1=B) closed locally
+	closeCnt   [2]int
+	cut        bool
+	blocked    [2]bool // end i blocked in Read
+	deadlock   bool
+	wrCalls    [2]int
+	rdCalls    [2]int
+	scripted   bool      // end B is a fixed script: A's reads get EOF once it is consumed, A's writes are absorbed
 	transcript [2][]byte // bytes as written (pre-edit)
 	wire       [2][]byte // bytes as delivered to the queue (post-edit, pre-cut loss)
-	record    bool
+	record     bool
 }
 
 // End is one side of the link. It implements net.Conn.
@@ -153,7 +154,9 @@ func (e *End) Write(p []byte) (int, error) {
 	if l.record {
 		l.transcript[d] = append(l.transcript[d], p[:n]...)
 	}
-	l.enqueue(d, p[:n])
+	if !l.scripted {
+		l.enqueue(d, p[:n])
+	}
 	l.written[d] += int64(n)
 	l.cond.Broadcast()
 	if failed {
@@ -215,7 +218,7 @@ func (e *End) Read(p []byte) (int, error) {
 		if len(l.q[d]) > 0 {
 			break
 		}
-		if l.cut || l.closed[1-e.idx] || l.deadlock {
+		if l.cut || l.closed[1-e.idx] || l.deadlock || l.scripted {
 			return 0, io.EOF
 		}
 		l.blocked[e.idx] = true
@@ -363,3 +366,16 @@ func (l *Link) Kill() {
 
 var _ net.Conn = (*End)(nil)
 var _ = errTimeout
+
+// NewScripted returns an end whose remote is a fixed byte string: reads deliver the script (under
+// the plan's segmentation) and then EOF; writes are accepted and recorded but go nowhere. This is
+// a legal peer for a strictly alternating protocol: what the remote sends does not depend on when
+// it is read.
+func NewScripted(script []byte, p Plan, record bool) (*End, *Link) {
+	p.CutDir = NoCut
+	a, _, l := New(p, record)
+	l.scripted = true
+	l.q[BtoA] = append([]byte(nil), script...)
+	l.written[BtoA] = int64(len(script))
+	return a, l
+}
